@@ -77,8 +77,9 @@ func (o *Overloader) PostAccept(sess erpc.PreSession) *erpc.Status {
 	if o.takeConnFor(sess) {
 		return nil
 	}
+	limit, now := o.connLimitNow()
 	msg := fmt.Sprintf("connection overload, limit=%d, now=%d",
-		o.connLimiter.getLimit(), o.connLimiter.getNow(),
+		limit, now,
 	)
 	return erpc.NewStatus(erpc.CodeInternalServerError, msg, nil)
 }
@@ -96,7 +97,7 @@ func (o *Overloader) PostDisconnect(sess erpc.BaseSession) *erpc.Status {
 func (o *Overloader) PostReadCallHeader(ctx erpc.ReadCtx) *erpc.Status {
 	if !o.takeTotalQPS() {
 		msg := fmt.Sprintf("qps overload, total_limit=%d",
-			o.totalQPSLimiter.getLimit(),
+			o.totalQPSLimit(),
 		)
 		return erpc.NewStatus(erpc.CodeInternalServerError, msg, nil)
 	}
@@ -118,25 +119,50 @@ func (o *Overloader) PostReadPushHeader(ctx erpc.ReadCtx) *erpc.Status {
 
 // LimitConfig returns the overload limitation condition.
 func (o *Overloader) LimitConfig() LimitConfig {
+	o.limitConfigLock.RLock()
+	defer o.limitConfigLock.RUnlock()
 	return *o.limitConfig
 }
 
 // Update updates the overload limitation condition.
 func (o *Overloader) Update(newLimitConfig LimitConfig) {
 	limitConfig := &newLimitConfig
+	// limitConfigLock is held for the whole update: concurrent updates are serialised and
+	// the helpers below may read the previous o.limitConfig. Each limiter is replaced
+	// under its own lock, the one its users (takeConnFor, takeTotalQPS, ...) read it under.
+	o.limitConfigLock.Lock()
 	o.updateConnLimiter(limitConfig)
 	o.updateTotalQPSLimiter(limitConfig)
 	o.updateHandlerLimiter(limitConfig)
-	o.limitConfigLock.Lock()
 	o.limitConfig = limitConfig
 	o.limitConfigLock.Unlock()
 }
 
+// connLimitNow returns the connection limit and the current count (0, 0 when unlimited).
+func (o *Overloader) connLimitNow() (limit, now int32) {
+	o.connLimiterLock.RLock()
+	if l := o.connLimiter; l != nil {
+		limit, now = l.getLimit(), l.getNow()
+	}
+	o.connLimiterLock.RUnlock()
+	return limit, now
+}
+
+// totalQPSLimit returns the total QPS limit (0 when unlimited).
+func (o *Overloader) totalQPSLimit() (limit int32) {
+	o.totalQPSLimiterLock.RLock()
+	if l := o.totalQPSLimiter; l != nil {
+		limit = l.getLimit()
+	}
+	o.totalQPSLimiterLock.RUnlock()
+	return limit
+}
+
 func (o *Overloader) updateConnLimiter(limitConfig *LimitConfig) {
-	o.limitConfigLock.Lock()
+	o.connLimiterLock.Lock()
 	if limitConfig.MaxConn <= 0 {
 		o.connLimiter = nil
-		o.limitConfigLock.Unlock()
+		o.connLimiterLock.Unlock()
 		return
 	}
 	if o.connLimiter == nil {
@@ -144,7 +170,7 @@ func (o *Overloader) updateConnLimiter(limitConfig *LimitConfig) {
 	} else if o.limitConfig.MaxConn != limitConfig.MaxConn {
 		o.connLimiter.update(limitConfig.MaxConn)
 	}
-	o.limitConfigLock.Unlock()
+	o.connLimiterLock.Unlock()
 }
 
 func (o *Overloader) updateTotalQPSLimiter(limitConfig *LimitConfig) {
